@@ -47,6 +47,8 @@ DecodeShape == mode = "dec" => LET d == Decode(s) IN
                  /\ Split(d)[1] = Split(s)[1]                 \* the counter's own name is kept
                  /\ Decode(d) = d                             \* expanding twice changes nothing
                  /\ IsStack(d) = IsStack(s)
+AbsCommutes == mode = "dec" => LinesEq(Abs(Decode(s)), LDec(Abs(s)))
+
 (* ---- theorems on frame sequences (mode enc) ---------------------------- *)
 RoundTrip == mode = "enc" =>
     \A ds \in SUBSET Dittoable(frs) : Decode(EncodeWith(prefix, frs, ds)) = Uncompressed(prefix, frs)
